@@ -31,12 +31,13 @@ type runner struct {
 	midx []*mindex
 	disk map[string]bool // files (slash paths relative to storage) that must be on disk
 
-	step    int
-	curOp   string
-	trace   []string
-	aborted bool
-	nviol   int
-	dups    bool // some resource lists the same version number more than once
+	step          int
+	curOp         string
+	trace         []string
+	aborted       bool
+	nviol         int
+	diskUnchecked string
+	dups          bool // some resource lists the same version number more than once
 }
 
 type oentry struct {
@@ -60,7 +61,7 @@ func (x *runner) violate(sig, what string, info any) {
 	if x.dups {
 		// everything observed after a resource started to list one version twice is a
 		// consequence of that; keep those witnesses apart from the others
-		if parts := strings.SplitN(sig, ":", 3); len(parts) >= 2 {
+		if parts := strings.SplitN(sig, ":", 3); len(parts) >= 2 && parts[1] != "panic" {
 			sig = "C19:duplicate-entries:" + parts[1]
 		}
 	}
@@ -313,6 +314,10 @@ func (x *runner) checkActive(op string, mr *mres, s *osnap) {
 }
 
 func (x *runner) checkDisk(op string) {
+	if x.diskUnchecked != "" && x.diskUnchecked != op {
+		op = x.diskUnchecked + "+" + op
+	}
+	x.diskUnchecked = ""
 	got := x.walk()
 	var diffs []string
 	for f := range x.disk {
@@ -355,7 +360,11 @@ func (x *runner) checkState(op string) {
 		st = append(st, fmt.Sprintf("r%d{sel=%s act=%s n=%d}", i, orDash(s.selected), orDash(s.active), len(s.list)))
 		x.b.Max("max_versions_listed", int64(len(s.list)))
 	}
-	if op != "Purge" {
+	switch op {
+	case "Purge": // judged by opPurge itself
+	case "AddResource", "SetFlag", "GetSelectedVersions":
+		x.diskUnchecked = op // pure bookkeeping operations: the listing is compared at the next step that could touch files (and at the end)
+	default:
 		x.checkDisk(op)
 	}
 	x.trace = append(x.trace, fmt.Sprintf("#%d %s => %s", x.step, x.curOp, strings.Join(st, " ")))
@@ -443,6 +452,9 @@ func (x *runner) run() {
 		case "getselected":
 			x.opGetSelected()
 		}
+	}
+	if x.diskUnchecked != "" && !x.aborted {
+		x.checkDisk(x.diskUnchecked)
 	}
 	x.b.Max("max_history_len", int64(len(x.c.Ops)))
 }
